@@ -100,6 +100,7 @@ type sGroup struct {
 	Methods   map[string]sView   // "SlabID.IndexAsUint64" -> value-method view (no arguments)
 	PkgVars   map[string]sPkgVar // package variables with a checked initialiser
 	FuncViews map[string]sView   // "NewSlabID" -> template with {0} {1}
+	Slices    map[string]sView   // "Address" -> view of `x[:]` for an array type (template with {X})
 	StmtViews []sStmtView
 	Targets   []sTarget
 }
@@ -580,6 +581,14 @@ func (x *strans) expr(e ast.Expr, en senv, want string) sval {
 			fail("no zero value for %s", mi.Elem)
 		}
 		return sval{"(GoMap.get " + paren(m.lean) + " " + paren(k.lean) + " " + paren(z) + ")", mi.Elem}
+	case *ast.SliceExpr:
+		if e.Low == nil && e.High == nil && e.Max == nil {
+			b := x.expr(e.X, en, "")
+			if sv, ok := x.g.Slices[b.typ]; ok {
+				return sval{"(" + strings.ReplaceAll(sv.Lean, "{X}", paren(b.lean)) + ")", sv.Type}
+			}
+		}
+		fail("no view for the slice expression %s", norm(src(e)))
 	case *ast.UnaryExpr:
 		if e.Op == token.NOT {
 			v := x.coerce(x.expr(e.X, en, "bool"), "bool")
